@@ -48,7 +48,11 @@ func DrawTrivia(t *rapid.T, st TriviaStyle) string {
 				body = w + "\n * " + rapid.SampledFrom(words).Draw(t, "cw2") + "\n "
 				body = strings.ReplaceAll(body, "*/", "* /")
 			}
-			sb.WriteString("/*" + rapid.SampledFrom([]string{"", " ", "*"}).Draw(t, "bp") + body + "*/")
+			inner := rapid.SampledFrom([]string{"", " ", "*"}).Draw(t, "bp") + body
+			for strings.Contains(inner, "*/") {
+				inner = strings.ReplaceAll(inner, "*/", "* /")
+			}
+			sb.WriteString("/*" + inner + "*/")
 			sb.WriteString(rapid.SampledFrom([]string{" ", "\n", "", "\n\n"}).Draw(t, "post"))
 		}
 	}
